@@ -30,7 +30,7 @@ ASSUMPTIONS = [
 ]
 REQUIRED_COUNTERS = ["runs", "calls.concurrent", "overlapping_pairs", "yields_injected", "lines_seen",
                      "threads.2", "threads.4", "threads.8", "shape.shared_node", "shape.t.Object",
-                     "trees.parsed", "quiescence.tree_unchanged", "calls.accepted", "calls.rejected"]
+                     "trees.parsed", "quiescence.tree_unchanged", "calls.accepted", "calls.rejected", "runs.cold_tree"]
 
 
 def plan(tier):
@@ -139,9 +139,22 @@ def one_run(ctx, sut, fpm, monitors, injector, rng, idx):
     lists = [[copy.deepcopy(rng.choice(pool)) for _ in range(ncalls)] for _ in range(nthreads)]
     case = {"spec": spec, "schema": None if spec is not None else schema, "threads": nthreads,
             "lists": [lst[:6] for lst in lists]}
-    fp_before = fpm.fp_config(element)
-    base_before = [sequential(sut, fpm, element, lst) for lst in lists]
-    fp_mid = fpm.fp_config(element)
+    cold = idx % 2 == 0
+    if cold:
+        # first-use races: the threads meet a tree nobody has validated against yet; the sequential
+        # baseline ("as it would when run alone") comes from an independently built twin
+        try:
+            twin = gen_dsl.build(spec) if spec is not None else sut.parse_direct(schema)
+        except Exception:  # pylint: disable=broad-except
+            return
+        ctx.count("runs.cold_tree")
+        fp_before = fpm.fp_config(element)
+        base_before = [sequential(sut, fpm, twin, lst) for lst in lists]
+        fp_mid = fp_before
+    else:
+        fp_before = fpm.fp_config(element)
+        base_before = [sequential(sut, fpm, element, lst) for lst in lists]
+        fp_mid = fpm.fp_config(element)
     probability = rng.choice([0.02, 0.05, 0.1, 0.3])
     lines0, yields0 = injector.lines, injector.yields
     records, errors, stuck = concurrent(sut, fpm, element, lists, injector, probability)
